@@ -1160,6 +1160,12 @@ class World:
     def _judge_path_len(self, idx, q, pr, oc, e, m, tolerant):
         if oc[0] == "i":
             return
+        # first: exactly what a fresh path answers for this very request (same code, same summation)
+        tw = outcome(lambda: self.twin_path(pr).length(error=e, min_depth=m))
+        if tw[0] == oc[0] and ((oc[0] == "e" and oc[1] == tw[1]) or (oc[0] == "v" and C(oc[1]) == C(tw[1]))):
+            return
+        # otherwise: any combination of legitimately cached per-segment values (see _legit_seg_lengths);
+        # the hull is computed here with Python's sum(), the implementation may add in another order
         hull = self._path_len_hull(pr, e, m)
         ok = False
         if hull[0] == "e":
@@ -1174,7 +1180,8 @@ class World:
                 elif math.isinf(lo) or math.isinf(hi) or lo != lo or hi != hi:
                     ok = False
                 else:
-                    slack = (1e-9 * max(abs(lo), abs(hi)) + self._scale_atol(pr)) if tolerant else 0.0
+                    slack = (1e-9 * max(abs(lo), abs(hi)) + self._scale_atol(pr)) if tolerant else \
+                        8 * max(1, len(pr.model)) * 2.3e-16 * max(abs(lo), abs(hi))   # summation order only
                     ok = lo - slack <= v <= hi + slack
             except (TypeError, ValueError):
                 ok = False
